@@ -84,6 +84,9 @@ def run_case(cs, ctx):
                     TAP.enabled = False
                 nsolve += 1
                 evs = TAP.events[before:]
+                if any(e.get('backend_fault') for e in evs):
+                    ctx.cnt('excluded_backend_returned_infeasible_point')
+                    return
                 facts = {'n_solves': len(evs), 'ncons': [e['ncons'] for e in evs]}
                 try:
                     txt = s.get_results()
